@@ -159,7 +159,7 @@ def decorate(table, kind, rng):
 
 
 # ----------------------------------------------------------------------------- small inputs
-def _batch(rng, multi, extras, min_muts, max_muts, n, L, reps=12):
+def _batch(rng, multi, extras, min_muts, max_muts, n, L, reps=12, migrations=None):
     """suitable tree sequences from ONE simulator set-up (msprime's set-up costs ~0.25 s,
     a replicate ~1 ms)"""
     import msprime
@@ -178,7 +178,8 @@ def _batch(rng, multi, extras, min_muts, max_muts, n, L, reps=12):
         k = max(1, n_ // ploidy)
         it = msprime.sim_ancestry(samples={"A": k, "B": max(1, k // 2)}, demography=demog, ploidy=ploidy,
                                   sequence_length=L_, recombination_rate=rec, random_seed=seed,
-                                  record_migrations=True, num_replicates=reps)
+                                  record_migrations=(rng.random() < 0.5) if migrations is None else migrations,
+                                  num_replicates=reps)
     else:
         it = msprime.sim_ancestry(n_, ploidy=1, sequence_length=L_, population_size=1.0,
                                   recombination_rate=rec, random_seed=seed, num_replicates=reps)
@@ -217,9 +218,10 @@ def pooled_ts(rng, size=10, **kw):
     tries = 0
     while len(pool) < size and tries < 200:
         tries += 1
-        a = dict(multi=False, extras=False, min_muts=1, max_muts=12, n=None, L=None)
+        a = dict(multi=False, extras=False, min_muts=1, max_muts=12, n=None, L=None, migrations=None)
         a.update(kw)
-        pool.extend(_batch(rng, a["multi"], a["extras"], a["min_muts"], a["max_muts"], a["n"], a["L"])[:3])
+        pool.extend(_batch(rng, a["multi"], a["extras"], a["min_muts"], a["max_muts"], a["n"], a["L"],
+                           migrations=a["migrations"])[:3])
     if not pool:
         raise RuntimeError("no suitable tree sequence")
     return rng.choice(pool)
@@ -322,22 +324,23 @@ def cbytes(bid):
 class MetaCase:
     """one call of set_time_metadata: the table side, the codec answers, the Coq term"""
 
-    def __init__(self, table, mean, var, default_schema, sm):
+    def __init__(self, table, mean, var, default_schema, sm, base=0):
         import tskit
         self.sm = sm
+        self.base = base
         self.mean = [float(x) for x in mean]
         self.var = None if var is None else [float(x) for x in var]
         self.bid = Interner()      # non-empty byte strings -> 1..
         self.vid = Interner()      # other values (canonical json) -> 1..
         self.sid = {}              # schema repr -> id (default = 0)
         self.default_schema = default_schema
-        self.sid[repr(default_schema)] = 0
+        self.sid[repr(default_schema)] = base
         schema = table.metadata_schema
         self.schema = schema
         self.has_schema = schema.schema is not None
         self.in_sid = None
         if self.has_schema:
-            self.in_sid = self.sid.setdefault(repr(schema), 1)
+            self.in_sid = self.sid.setdefault(repr(schema), base + 1)
         self.rows = [bytes(b) for b in tskit.unpack_bytes(table.metadata, table.metadata_offset)]
         self.row_ids = [self.b(b) for b in self.rows]
         self.dec_tab = []
@@ -377,8 +380,8 @@ class MetaCase:
             return
         seen_dec = set()
         seen_enc = set()
-        schemas_ = [(0, self.default_schema)]
-        if self.has_schema and self.in_sid != 0:
+        schemas_ = [(self.base, self.default_schema)]
+        if self.has_schema and self.in_sid != self.base:
             schemas_.append((self.in_sid, self.schema))
         n = min(len(self.rows), len(self.mean), len(self.var))
         for sid, schema in schemas_:
@@ -418,12 +421,26 @@ class MetaCase:
         sm = {None: "None", True: "(Some true)", False: "(Some false)"}[self.sm]
         t = "(mkMT %s %s)" % (copt(self.in_sid, cZ), clist(self.row_ids, cbytes))
         var = "None" if self.var is None else "(Some %s)" % clist(self.var, cfloat)
-        call = "(run_set_meta @DT@ @ET@ %s %s %s %s 0%%Z)" % (sm, t, clist(self.mean, cfloat), var)
+        call = "(run_set_meta @DT@ @ET@ %s %s %s %s %s)" % (sm, t, clist(self.mean, cfloat), var, cZ(self.base))
         return clist(self.dec_tab, cdec), clist(self.enc_tab, cenc), call
 
     def coq_term(self):
         d, e, call = self.coq_parts()
         return call.replace("@DT@", "(%s : dec_tab)" % d).replace("@ET@", "(%s : enc_tab)" % e)
+
+    def bytes_of(self, ids):
+        """model bytes (a list with at most one interned id) -> python bytes"""
+        if not ids:
+            return b""
+        i = ids[0]
+        return self.bid.items[i - 1] if 1 <= i <= len(self.bid.items) else b"<not-in-codec-table>"
+
+    def schema_of(self, sid):
+        if sid == -1:
+            return None
+        if sid == self.base:
+            return self.default_schema
+        return self.schema
 
     def impl_result(self, table, exc, events):
         """canonical (kind, schema-or-exn, rows, log) of what the implementation did"""
@@ -483,14 +500,26 @@ def call_set_time_metadata(method, table, mean, var, default_schema):
     return t, exc, tap.events
 
 
+def stripped_for_priors(ts):
+    """the discrete methods build their prior with simplify(), which rejects migrations and
+    edge metadata: same nodes/edges without them"""
+    t = ts.dump_tables()
+    t.migrations.clear()
+    t.edges.drop_metadata()
+    return t.tree_sequence()
+
+
 def make_method(ts, sm, cls="variational_gamma", **kw):
     """a method object without running the inference"""
+    import tsdate
     from tsdate import core
     if cls == "variational_gamma":
         return core.VariationalGammaMethod(ts, mutation_rate=1.0, set_metadata=sm, **kw)
-    if cls == "inside_outside":
-        return core.InsideOutsideMethod(ts, mutation_rate=1.0, population_size=1.0, set_metadata=sm, **kw)
-    return core.MaximizationMethod(ts, mutation_rate=1.0, population_size=1.0, set_metadata=sm, **kw)
+    C = core.InsideOutsideMethod if cls == "inside_outside" else core.MaximizationMethod
+    if ts.num_migrations > 0 or len(ts.tables.edges.metadata) > 0:
+        priors = tsdate.build_prior_grid(stripped_for_priors(ts), population_size=1.0)
+        return C(ts, mutation_rate=1.0, priors=priors, set_metadata=sm, **kw)
+    return C(ts, mutation_rate=1.0, population_size=1.0, set_metadata=sm, **kw)
 
 
 # ----------------------------------------------------------------------------- policy oracle (no Coq)
@@ -580,3 +609,180 @@ def check_policy(label, schema0, rows0, table1, mean, var, default_schema, sm, w
 
 def same_float(a, b):
     return (math.isnan(a) and math.isnan(b)) or (a == b and math.copysign(1, a) == math.copysign(1, b))
+
+
+# ----------------------------------------------------------------------------- get_modified_ts
+def decorate_extras(tables, rng, edge_md=True):
+    """things dating must not touch: top-level metadata, reference sequence, individual /
+    population / site / edge / migration metadata, individual parents and locations"""
+    import tskit
+    if rng.random() < 0.6:
+        tables.metadata_schema = tskit.MetadataSchema({"codec": "json"})
+        tables.metadata = {"top": rng.randint(0, 9), "mn": "not a time"}
+    if rng.random() < 0.4:
+        tables.reference_sequence.data = "ACGT" * 3
+    if rng.random() < 0.6:
+        tables.sites.packset_metadata([b"s%d" % i for i in range(tables.sites.num_rows)])
+    if edge_md and rng.random() < 0.6:
+        tables.edges.packset_metadata([b"e%d" % i for i in range(tables.edges.num_rows)])
+    if tables.migrations.num_rows and rng.random() < 0.6:
+        tables.migrations.packset_metadata([b"g%d" % i for i in range(tables.migrations.num_rows)])
+    if tables.individuals.num_rows == 0 and rng.random() < 0.6:
+        # pair up the samples into diploid individuals, leftover haploid; parents given
+        samples = [u for u in range(tables.nodes.num_rows) if tables.nodes.flags[u] & 1]
+        ind = tables.nodes.individual.copy()
+        k = 0
+        tables.individuals.metadata_schema = tskit.MetadataSchema({"codec": "json"})
+        for i in range(0, len(samples), 2):
+            tables.individuals.add_row(flags=rng.randint(0, 3), location=[rng.random(), 1.0],
+                                       parents=[-1, k - 1] if k > 0 else [-1, -1],
+                                       metadata={"id": "ind%d" % k})
+            for u in samples[i:i + 2]:
+                ind[u] = k
+            k += 1
+        tables.nodes.individual = ind
+    if tables.populations.num_rows == 0 and rng.random() < 0.5:
+        tables.populations.add_row(metadata=b"popA")
+        tables.populations.add_row(metadata=b"popB")
+        pop = tables.nodes.population.copy()
+        for u in range(len(pop)):
+            pop[u] = rng.choice([0, 1, -1])
+        tables.nodes.population = pop
+
+
+def unpack(col, off):
+    import tskit
+    return [bytes(b) for b in tskit.unpack_bytes(col, off)]
+
+
+class ModCase:
+    """one call of get_modified_ts with a fabricated Results: Coq term of the model, and the
+    application of the model's answer (plus tskit's own build_index / compute_mutation_parents
+    / compute_mutation_times) to a copy of the input tables"""
+
+    UNITS = {}
+
+    def __init__(self, its, method, res, pvalues):
+        from tsdate import schemas
+        self.its = its
+        self.method = method
+        self.res = res
+        t = its.dump_tables()
+        self.t = t
+        sm = method.set_metadata
+        self.mc_n = MetaCase(t.nodes, [] if res.posterior_mean is None else res.posterior_mean,
+                             res.posterior_var, schemas.default_node_schema, sm, base=0)
+        self.mc_m = MetaCase(t.mutations, [] if res.mutation_mean is None else res.mutation_mean,
+                             res.mutation_var, schemas.default_mutation_schema, sm, base=10)
+        self.V = pvalues
+        self.units = Interner()
+
+    def coq_term(self):
+        t = self.t
+        m = self.method
+        res = self.res
+        dn, en, _ = self.mc_n.coq_parts()
+        dm, em, _ = self.mc_m.coq_parts()
+        dt = "(%s ++ %s)%%list" % (dn, dm)
+        et = "(%s ++ %s)%%list" % (en, em)
+        nodes = clist(range(t.nodes.num_rows), lambda i: "(zNode %s %s %s %s %s)" % (
+            cZ(t.nodes.flags[i]), cfloat(t.nodes.time[i]), cZ(t.nodes.population[i]), cZ(t.nodes.individual[i]),
+            cbytes(self.mc_n.row_ids[i])))
+        edges = clist(range(t.edges.num_rows), lambda i: "(zEdge %s %s %s %s [%s])" % (
+            cfloat(t.edges.left[i]), cfloat(t.edges.right[i]), cnat(t.edges.parent[i]), cnat(t.edges.child[i]), cZ(i)))
+        import tskit
+
+        def mtime(x):
+            return "None" if tskit.is_unknown_time(x) else "(Some %s)" % cfloat(x)
+        muts = clist(range(t.mutations.num_rows), lambda i: "(zMut %s %s %s %s %s %s)" % (
+            cnat(t.mutations.site[i]), cnat(t.mutations.node[i]), mtime(t.mutations.time[i]), cZ(i),
+            "None" if t.mutations.parent[i] < 0 else "(Some %s)" % cnat(t.mutations.parent[i]),
+            cbytes(self.mc_m.row_ids[i])))
+        migs = clist(range(t.migrations.num_rows), lambda i: "(zMig %s %s %s %s %s %s [%s])" % (
+            cfloat(t.migrations.left[i]), cfloat(t.migrations.right[i]), cnat(t.migrations.node[i]),
+            cZ(t.migrations.source[i]), cZ(t.migrations.dest[i]), cfloat(t.migrations.time[i]), cZ(i)))
+        provs = clist(range(t.provenances.num_rows), lambda i: '[("old"%%string, %s)]' % cZ(1000 + i))
+        tabs = "(zTables %s %s %s %s %s %s %s %s %s tt tt %s tt)" % (
+            cfloat(t.sequence_length), cZ(self.units(t.time_units)), nodes, copt(self.mc_n.in_sid, cZ), edges,
+            clist(range(t.sites.num_rows), cZ), muts, copt(self.mc_m.in_sid, cZ), migs, provs)
+        pp = m.provenance_params
+        ppc = "None" if pp is None else "(Some %s)" % clist(
+            pp.items(), lambda kv: "(%s, %s)" % (ckey(kv[0]), cZ(self.V(kv[1]))))
+        cfg = "(zConfig %s %s %s %s)" % (cZ(self.units(m.time_units)),
+                                           {None: "None", True: "(Some true)", False: "(Some false)"}[m.set_metadata],
+                                           ckey(m.name), ppc)
+
+        def optl(x):
+            return "None" if x is None else "(Some %s)" % clist([float(v) for v in x], cfloat)
+        r = "(zResult %s %s %s %s %s)" % (clist([float(v) for v in res.posterior_mean], cfloat),
+                                           optl(res.posterior_var), optl(res.mutation_mean), optl(res.mutation_var),
+                                           clist([int(v) for v in res.mutation_node], cnat))
+        return "(run_get_modified %s %s %s %s %s %s %s)" % (dt, et, cfloat(m.min_branch_length),
+                                                          cnat(m.constr_iterations), cfg, tabs, r)
+
+    def apply(self, model):
+        """tables predicted by the model (None when the model says the call raises);
+        raises tskit errors from the tskit steps"""
+        import tskit
+        kind = model[0]
+        if kind == 1:
+            return None, model[1][0]
+        _k, (tu, ntime, nmd, nsch), (eperm, gperm), (mrows, msch), (provs, log) = model
+        t = self.t
+        pred = self.its.dump_tables()
+        pred.time_units = self.units.items[tu - 1]
+        nschema = self.mc_n.schema_of(nsch)
+        pred.nodes.set_columns(flags=t.nodes.flags, time=np.array(ntime, dtype=float),
+                               population=t.nodes.population, individual=t.nodes.individual)
+        pred.nodes.packset_metadata([self.mc_n.bytes_of(b) for b in nmd])
+        pred.nodes.metadata_schema = nschema if nschema is not None else tskit.MetadataSchema(None)
+        ep = [e[0] for e in eperm]
+        pred.edges.replace_with(t.edges[np.array(ep, dtype=int)] if ep else t.edges)
+        gp = [g[0] for g in gperm]
+        if gp:
+            pred.migrations.replace_with(t.migrations[np.array(gp, dtype=int)])
+        order = [r[0] for r in mrows]
+        mt = (t.mutations[np.array(order, dtype=int)] if order else t.mutations).copy()
+        mt.node = np.array([r[1] for r in mrows], dtype=np.int32)
+        mt.time = np.full(len(order), tskit.UNKNOWN_TIME)
+        mt.parent = np.full(len(order), tskit.NULL, dtype=np.int32)
+        mt.packset_metadata([self.mc_m.bytes_of(r[2]) for r in mrows])
+        mschema = self.mc_m.schema_of(msch)
+        mt.metadata_schema = mschema if mschema is not None else tskit.MetadataSchema(None)
+        pred.mutations.replace_with(mt)
+        pred.mutations.metadata_schema = mt.metadata_schema
+        pred.build_index()
+        pred.compute_mutation_parents()
+        pred.compute_mutation_times()
+        self.pred_order = order
+        self.pred_provs = provs
+        self.pred_log = log
+        return pred, None
+
+
+def table_diff(a, b):
+    """names of the tables / columns in which two TableCollections differ (provenance ignored)"""
+    out = []
+    if a.sequence_length != b.sequence_length:
+        out.append("sequence_length")
+    if a.time_units != b.time_units:
+        out.append("time_units")
+    if a.metadata_schema != b.metadata_schema or a.metadata_bytes != b.metadata_bytes:
+        out.append("top-level metadata")
+    if a.reference_sequence != b.reference_sequence:
+        out.append("reference_sequence")
+    for name in ("nodes", "edges", "sites", "mutations", "migrations", "individuals", "populations"):
+        ta, tb = getattr(a, name), getattr(b, name)
+        if ta.num_rows != tb.num_rows:
+            out.append("%s.num_rows" % name)
+            continue
+        if repr(ta.metadata_schema) != repr(tb.metadata_schema):
+            out.append("%s.metadata_schema" % name)
+        da, db = ta.asdict(), tb.asdict()
+        for col in da:
+            if col == "metadata_schema":
+                continue
+            x, y = np.asarray(da[col]), np.asarray(db[col])
+            if x.shape != y.shape or not np.array_equal(x, y, equal_nan=(x.dtype.kind == "f")):
+                out.append("%s.%s" % (name, col))
+    return out
